@@ -1,11 +1,20 @@
 // dev-c13: throw-away driver for the C13 check.
+//
+//	dev-c13 quick|thorough         run the check
+//	dev-c13 ddmin <replay.json>    shrink a replay's command list while NEARBY order stays broken
 package main
 
 import (
+	"encoding/json"
+	"fmt"
 	"os"
+	"strconv"
+	"time"
 
 	"verifharness/checks/c13"
 	"verifharness/core"
+	"verifharness/respc"
+	"verifharness/srv"
 )
 
 func main() {
@@ -13,7 +22,111 @@ func main() {
 	if len(os.Args) > 1 {
 		tier = os.Args[1]
 	}
+	if tier == "ddmin" {
+		ddmin(os.Args[2])
+		return
+	}
 	ctx := core.New("C13", tier, "exploration")
 	c13.Run(ctx)
 	ctx.Finish()
+}
+
+func ddmin(path string) {
+	defer srv.Cleanup()
+	b, _ := os.ReadFile(path)
+	var doc struct {
+		Replay struct {
+			Commands [][]string `json:"commands"`
+			Query    []string   `json:"query"`
+		} `json:"replay"`
+	}
+	if err := json.Unmarshal(b, &doc); err != nil {
+		panic(err)
+	}
+	cmds := doc.Replay.Commands[:len(doc.Replay.Commands)-1]
+	q := doc.Replay.Query
+	bin, err := srv.Build("plain")
+	if err != nil {
+		panic(err)
+	}
+	s, err := srv.Start(srv.Opts{Bin: bin, Args: []string{"--appendonly", "no"}})
+	if err != nil {
+		panic(err)
+	}
+	c, _ := respc.Dial(s.Addr(), time.Second)
+	c.Timeout = 20 * time.Second
+	var last respc.Reply
+	bad := func(cs [][]string) bool {
+		c.Send("FLUSHDB")
+		for _, x := range cs {
+			c.Send(x...)
+		}
+		c.Send(q...)
+		var r respc.Reply
+		for i := 0; i < len(cs)+2; i++ {
+			r, err = c.Recv()
+			if err != nil {
+				panic(err)
+			}
+		}
+		last = r
+		if len(r.Arr) != 2 {
+			return false
+		}
+		prev := -1.0
+		for _, e := range r.Arr[1].Arr {
+			if len(e.Arr) != 2 {
+				return false
+			}
+			v, _ := strconv.ParseFloat(e.Arr[1].Str, 64)
+			if prev > v*(1+1e-6)+1e-3 {
+				return true
+			}
+			prev = v
+		}
+		return false
+	}
+	fmt.Println("initially bad:", bad(cmds), len(cmds))
+	if !bad(cmds) {
+		return
+	}
+	n := 2
+	for len(cmds) >= 2 {
+		chunk := len(cmds) / n
+		if chunk < 1 {
+			chunk = 1
+		}
+		reduced := false
+		for i := 0; i < len(cmds); i += chunk {
+			end := i + chunk
+			if end > len(cmds) {
+				end = len(cmds)
+			}
+			cand := append(append([][]string{}, cmds[:i]...), cmds[end:]...)
+			if len(cand) > 0 && bad(cand) {
+				cmds = cand
+				if n > 2 {
+					n--
+				}
+				reduced = true
+				break
+			}
+		}
+		if !reduced {
+			if chunk == 1 {
+				break
+			}
+			n *= 2
+			if n > len(cmds) {
+				n = len(cmds)
+			}
+		}
+	}
+	bad(cmds)
+	fmt.Println("minimal:", len(cmds))
+	for _, x := range cmds {
+		fmt.Println(x)
+	}
+	fmt.Println(q)
+	fmt.Println(last.String())
 }
